@@ -22,6 +22,12 @@ class C10(LoopCheck):
                 c2["precond"] = "logit"
                 c2["name"] = c["name"] + "-logit-precond"
                 out.append(c2)
+                # the other numpy kernel recomputes the densities itself after the move
+                c3 = dict(c2)
+                c3["sampler"] = "EmceeSMC"
+                c3["name"] = c2["name"].replace("MiniPCNSMC", "EmceeSMC")
+                if not any(o["name"] == c3["name"] for o in out):
+                    out.append(c3)
         for n, d in ([(2, 1)] if tier == "quick" else [(2, 1), (2, 2), (3, 1)]):
             out.append({"name": f"initial-fp-n{n}-d{d}", "kind": "initial_fp", "N": n, "d": d, "rounds": 3, "flow": "initial_fp", "timeout_ms": 120000})
         return out
@@ -106,8 +112,10 @@ def replay_initial(cex):
     draws = [rs.normal(size=(n, d)) + 10 * k for k in range(1, 8)]
     # which rows are invalid: try every pattern over the first two rounds
     bad = []
-    for pattern in range(2 ** (2 * n)):
+    for pattern, nonfinite in [(pt, nf) for pt in range(2 ** (2 * n)) for nf in (-np.inf, np.inf, np.nan)]:
         invalid = {(k, i) for k in range(2) for i in range(n) if (pattern >> (k * n + i)) & 1}
+        if not invalid and nonfinite != -np.inf:
+            continue
         state = {"k": 0}
         lookup = {}
 
@@ -119,7 +127,7 @@ def replay_initial(cex):
             out = -np.sum(np.abs(x), axis=-1)
             for r, row in enumerate(x):
                 if lookup.get(tuple(row)) in invalid:
-                    out[r] = -np.inf
+                    out[r] = nonfinite
             return out
 
         def Qf(x):
@@ -156,7 +164,7 @@ def replay_initial(cex):
         elif calls["n"] != n:
             msg = f"likelihood evaluated on {calls['n']} points instead of {n}"
         if msg:
-            bad.append(f"invalid rows {sorted(invalid)}: {msg}")
+            bad.append(f"rows {sorted(invalid)} with log-prior {nonfinite}: {msg}")
             break
     return (len(bad) > 0, "; ".join(bad) if bad else "all initial-population clauses hold")
 
